@@ -64,6 +64,14 @@ def c16_job(job):
     from simfile.ssc import SSCSimfile, SSCChart
     rng = random.Random(seed)
     src = gen_sm(rng, corp, plain)
+    if not plain and rng.random() < 0.12:
+        # a negative BPM / stop (the SM-era warp trick): refused, whatever templates the caller hands over
+        if rng.random() < 0.5:
+            src["BPMS"] = src["BPMS"] + ",\n12.000=-120.000,12.500=120.000"
+        else:
+            src["STOPS"] = (src["STOPS"] + "," if src["STOPS"] else "") + "16.000=-0.250"
+        if rng.random() < 0.7:
+            src["WARPS"] = ""
     tmpl = ctmpl = None
     if not plain and rng.random() < 0.4:
         tmpl = SSCSimfile.blank()
@@ -73,6 +81,10 @@ def c16_job(job):
             tmpl.charts.append(SSCChart.blank())
         if rng.random() < 0.3:
             tmpl["ANIMATIONS"] = tmpl.pop("BGCHANGES")       # a template that spells a property by its legacy alias
+        if "WARPS" in src and rng.random() < 0.6:
+            tmpl["WARPS"] = rng.choice(["8.000=2.000", "1=1,\n4=0.5"])      # a template with timing of its own (the source's replaces it)
+        if rng.random() < 0.15:
+            tmpl["BPMS"] = "0.000=60.000"
         q = rng.random()
         if q < 0.2:
             tmpl.move_to_end("VERSION")                      # a template whose VERSION is not its first property
